@@ -20,8 +20,16 @@ pub fn pipe(datagram: bool) -> (VerifIo, VerifPeer) {
     let (to_lib, rx) = unbounded_channel();
     let (tx, from_lib) = unbounded_channel();
     (
-        VerifIo { rx, tx, pending: VecDeque::new(), datagram },
-        VerifPeer { to_lib: Some(to_lib), from_lib },
+        VerifIo {
+            rx,
+            tx,
+            pending: VecDeque::new(),
+            datagram,
+        },
+        VerifPeer {
+            to_lib: Some(to_lib),
+            from_lib,
+        },
     )
 }
 
@@ -58,7 +66,11 @@ impl VerifIo {
 
     pub async fn write_all(&mut self, data: &[u8]) -> std::io::Result<()> {
         // the (virtual) instant of the write, when a tokio runtime with a clock is running
-        let now = if tokio::runtime::Handle::try_current().is_ok() { Some(tokio::time::Instant::now()) } else { None };
+        let now = if tokio::runtime::Handle::try_current().is_ok() {
+            Some(tokio::time::Instant::now())
+        } else {
+            None
+        };
         self.tx
             .send((now, data.to_vec()))
             .map_err(|_| std::io::Error::new(std::io::ErrorKind::BrokenPipe, "verif peer closed"))
